@@ -45,6 +45,7 @@ struct ConnectTokenEntry {
 /// incoming encrypted packets from clients. The server is agnostic from the transport layer, only
 /// consuming and generating bytes that can be transported in any way desired.
 #[derive(Debug)]
+#[cfg_attr(feature = "verif", derive(Clone))]
 pub struct NetcodeServer {
     clients: Box<[Option<Connection>]>,
     pending_clients: HashMap<SocketAddr, Connection>,
@@ -716,6 +717,63 @@ fn find_client_mut_by_addr(clients: &mut [Option<Connection>], addr: SocketAddr)
         Some(c) if c.addr == addr => Some((i, c)),
         _ => None,
     })
+}
+
+#[cfg(feature = "verif")]
+impl Connection {
+    fn verif_snapshot(&self) -> crate::verif::ConnectionSnapshot {
+        crate::verif::ConnectionSnapshot {
+            confirmed: self.confirmed,
+            client_id: self.client_id,
+            connected: self.state == ConnectionState::Connected,
+            pending_response: self.state == ConnectionState::PendingResponse,
+            send_key: self.send_key,
+            receive_key: self.receive_key,
+            user_data: self.user_data,
+            addr: self.addr,
+            last_packet_received_time: self.last_packet_received_time,
+            last_packet_send_time: self.last_packet_send_time,
+            timeout_seconds: self.timeout_seconds,
+            sequence: self.sequence,
+            expire_timestamp: self.expire_timestamp,
+            replay_most_recent_sequence: self.replay_protection.verif_most_recent_sequence(),
+        }
+    }
+}
+
+#[cfg(feature = "verif")]
+impl NetcodeServer {
+    /// Verification hook: canonical read-only view of the server tables.
+    pub fn verif_snapshot(&self) -> crate::verif::ServerSnapshot {
+        let mut pending: Vec<_> = self.pending_clients.values().map(|c| c.verif_snapshot()).collect();
+        pending.sort_by_key(|c| c.addr);
+        crate::verif::ServerSnapshot {
+            slots: self.clients.iter().map(|c| c.as_ref().map(|c| c.verif_snapshot())).collect(),
+            pending,
+            max_clients: self.max_clients,
+            challenge_sequence: self.challenge_sequence,
+            global_sequence: self.global_sequence,
+            current_time: self.current_time,
+            token_entries: self.connect_token_entries.iter().filter(|e| e.is_some()).count(),
+        }
+    }
+
+    /// Verification hook: the key challenge tokens are sealed with (to recognise issued challenges).
+    pub fn verif_challenge_key(&self) -> [u8; NETCODE_KEY_BYTES] {
+        self.challenge_key
+    }
+
+    /// Verification hook: start the send sequence counter of a connected client at a chosen value.
+    pub fn verif_set_client_sequence(&mut self, client_id: u64, sequence: u64) {
+        if let Some(client) = find_client_mut_by_id(&mut self.clients, client_id) {
+            client.sequence = sequence;
+        }
+    }
+
+    /// Verification hook: start the counter used for handshake replies at a chosen value.
+    pub fn verif_set_global_sequence(&mut self, sequence: u64) {
+        self.global_sequence = sequence;
+    }
 }
 
 #[cfg(test)]
